@@ -257,8 +257,9 @@ class Merge(Expr):
     def broadcast_side(self):
         return "left" if self.left.npartitions < self.right.npartitions else "right"
 
-    @functools.cached_property
+    @property
     def is_broadcast_join(self):
+        # Not cached: depends on the current default shuffle method
         broadcast_bias, broadcast = 0.5, None
         broadcast_side = self.broadcast_side
         if isinstance(self.broadcast, float):
